@@ -40,6 +40,28 @@ def d1_bundling_typestate(ctx, rm: REModel):
     clears = [A.norm(s) for s in cr.node.body]
     for c in ("self._read_cache.clear()", "self._asset_docs_cache.clear()", "self._objs_read.clear()"):
         ctx.ob("C15.D1-bundle-starts-empty", cname(cr, None, c), c in clears, "" if c in clears else "readings of a previous (dropped / interrupted) bundle leak into the next event", where=where(cr, cr.node))
+    # ... and the rejected create has no effect on the bundle that IS open: every write to the bundle's collected state sits behind the guard
+    BUNDLE = ("_read_cache", "_asset_docs_cache", "_objs_read", "_bundle_name")
+    n_eff = 0
+    for s in A.walk_stmts(cr.node.body):
+        if isinstance(s, (ast.If, ast.Try, ast.For, ast.While, ast.With)):
+            continue
+        writes = [a for t in A.targets_of(s) for a in ast.walk(t) if isinstance(a, ast.Attribute) and A.norm(a.value) == "self" and a.attr in BUNDLE]
+        writes += [c for c in A.calls_in(s) if isinstance(c.func, ast.Attribute) and c.func.attr in ("clear", "append", "extend", "add", "update", "pop", "remove", "discard")
+                   and isinstance(c.func.value, ast.Attribute) and A.norm(c.func.value.value) == "self" and c.func.value.attr in BUNDLE]
+        if not writes:
+            continue
+        n_eff += 1
+        w = q.guard_true_dominates(g, s, lambda t: A.norm(t) == "self.bundling", "F")
+        if w == ["<target unreachable>"]:
+            # a handler of an exception kind the quiet CFG does not model (KeyError of a lookup): it runs only after its try statement was entered
+            tries = [t for t in A.walk_stmts(cr.node.body) if isinstance(t, ast.Try) and any(s in list(A.walk_stmts(h.body)) for h in t.handlers)]
+            ws = [q.guard_true_dominates(g, t.body[0], lambda t_: A.norm(t_) == "self.bundling", "F") for t in tries]
+            w = next((x for x in ws if x is not None), None) if ws else w
+        ctx.ob("C15.D1-rejected-create-has-no-effect", cname(cr, s), w is None,
+               "" if w is None else f"`{A.head(s)}` runs before the 'bundle already open' rejection: a create that is refused (and caught by the plan) empties / renames the bundle "
+               "that is open, and its save emits an event without the readings taken so far", nontrivial=True, witness=w, where=where(cr, s))
+    ctx.ob("C15.D1-rejected-create-has-no-effect", cname(cr, None, "writes to the bundle's collected state found"), n_eff >= 3, f"{n_eff} site(s)", where=where(cr, cr.node))
     for nm in ("save", "drop"):
         f = rm.b(nm)
         g = q.cfg(f, q.quiet_policy(repo))
@@ -210,6 +232,9 @@ CLAIM = {
 BU = "bundlers.py"
 RE = "run_engine.py"
 MUTANTS = [
+    ("create empties the open bundle before rejecting a nested create (seed C15-c)",
+     [(BU, "        self._read_cache.clear()\n        self._asset_docs_cache.clear()\n        self._objs_read.clear()\n        self.bundling = True\n", "        self.bundling = True\n"),
+      (BU, "        Descriptor document.\n        \"\"\"\n        if self.bundling:\n", "        Descriptor document.\n        \"\"\"\n        self._read_cache.clear()\n        self._asset_docs_cache.clear()\n        self._objs_read.clear()\n        if self.bundling:\n")], "C15.D1"),
     ("second create allowed", [(BU, "        if self.bundling:\n            raise IllegalMessageSequence(\n                \"A second 'create' message is not \"", "        if self.bundling and self._strict_pre_declare:\n            raise IllegalMessageSequence(\n                \"A second 'create' message is not \"")], "C15.D1"),
     ("collision check removed", [(BU, "                if set(known_keys) & cur_keys:\n", "                if False:\n")], "C15.D2"),
     ("reading recorded before the collision check",
